@@ -28,7 +28,15 @@ fn main() {
     symlink(work.join("a.txt"), work.join("link_in_file")).unwrap(); // symlink staying inside
     symlink("../../outside/secret.txt", work.join("sub").join("rel_out")).unwrap(); // relative symlink leaving
     symlink(work.join("sub"), outside.join("back_in")).unwrap(); // outside -> inside
-    let vocab = ["a.txt", "sub", "b.txt", "link_out_file", "link_out_dir", "link_in_file", "rel_out", "secret.txt", "..", ".", "outside", "work", "back_in", "missing", "work-evil"];
+    // a sibling whose name differs from the work directory's only in letter case
+    fs::create_dir_all(base.join("WORK")).unwrap();
+    fs::write(base.join("WORK").join("secret.txt"), b"out").unwrap();
+    // two cooperating links: `jump/..` is `nest` for the file system but `work` lexically; `nest/twin` is a regular file inside, `twin` leaves
+    fs::create_dir_all(work.join("nest").join("deep")).unwrap();
+    fs::write(work.join("nest").join("twin"), b"in").unwrap();
+    symlink("nest/deep", work.join("jump")).unwrap();
+    symlink("../outside/secret.txt", work.join("twin")).unwrap();
+    let vocab = ["a.txt", "sub", "b.txt", "link_out_file", "link_out_dir", "link_in_file", "rel_out", "secret.txt", "..", ".", "outside", "work", "back_in", "missing", "work-evil", "WORK", "jump", "twin", "nest", "deep"];
     let mut reqs: Vec<String> = vec![String::new()];
     for a in vocab { reqs.push(a.to_string()); for b in vocab { reqs.push(format!("{a}/{b}")); for c in vocab { reqs.push(format!("{a}/{b}/{c}")); } } }
     let mut all: Vec<String> = Vec::new();
@@ -54,6 +62,26 @@ fn main() {
                     fail = Some(format!("request={:?} workdir={:?} accepted_as={:?} which the file system resolves to {:?} (work directory resolves to {:?})", r, wd, p, resolved, work_real));
                 }
             }
+        }
+    }
+    // a request that was accepted once must be re-validated: replace an accepted regular file by a link leaving the work directory and ask again
+    if fail.is_none() {
+        for r in ["a.txt", "sub/b.txt", "./a.txt", "sub/../a.txt"] {
+            fs::write(work.join("a.txt"), b"in").ok(); fs::write(work.join("sub").join("b.txt"), b"in").ok();
+            let first = security::validate_path(r, Path::new(&work));
+            n += 1;
+            if first.is_err() { continue; }
+            let target = if r.contains("b.txt") { work.join("sub").join("b.txt") } else { work.join("a.txt") };
+            fs::remove_file(&target).unwrap();
+            symlink(outside.join("secret.txt"), &target).unwrap();
+            if let Ok(p) = security::validate_path(r, Path::new(&work)) {
+                let resolved = fs::canonicalize(&p);
+                if !matches!(&resolved, Ok(q) if q.starts_with(&work_real)) {
+                    fail = Some(format!("sequence: request={:?} accepted while a regular file; the file was then replaced by a link to {:?}; the SAME request was accepted again as {:?}, which resolves to {:?}", r, outside.join("secret.txt"), p, resolved));
+                }
+            }
+            fs::remove_file(&target).ok();
+            if fail.is_some() { break; }
         }
     }
     let _ = fs::remove_dir_all(&base);
